@@ -308,7 +308,13 @@ impl<F: Read + Seek> Package<F> {
                     table.read_rows(stream)?,
                 );
                 for row in rows {
-                    let table_name = row[0].as_str().unwrap().to_string();
+                    let table_name = match row[0].as_str() {
+                        Some(name) => name.to_string(),
+                        None => invalid_data!(
+                            "Null table name in {:?} table",
+                            TABLES_TABLE_NAME
+                        ),
+                    };
                     if names.contains(&table_name) {
                         invalid_data!(
                             "Repeated key in {:?} table: {:?}",
@@ -339,9 +345,21 @@ impl<F: Read + Seek> Package<F> {
                     table.read_rows(stream)?,
                 );
                 for row in rows {
-                    let table_name = row[0].as_str().unwrap();
+                    let (table_name, col_index, col_name, type_bits) = match (
+                        row[0].as_str(),
+                        row[1].as_int(),
+                        row[2].as_str(),
+                        row[3].as_int(),
+                    ) {
+                        (Some(table), Some(index), Some(name), Some(bits)) => {
+                            (table, index, name.to_string(), bits)
+                        }
+                        _ => invalid_data!(
+                            "Null value in {:?} table",
+                            COLUMNS_TABLE_NAME
+                        ),
+                    };
                     if let Some(cols) = columns_map.get_mut(table_name) {
-                        let col_index = row[1].as_int().unwrap();
                         if cols.contains_key(&col_index) {
                             invalid_data!(
                                 "Repeated key in {:?} table: {:?}",
@@ -349,8 +367,6 @@ impl<F: Read + Seek> Package<F> {
                                 (table_name, col_index)
                             );
                         }
-                        let col_name = row[2].as_str().unwrap().to_string();
-                        let type_bits = row[3].as_int().unwrap();
                         cols.insert(col_index, (col_name, type_bits));
                     } else {
                         invalid_data!(
@@ -374,17 +390,18 @@ impl<F: Read + Seek> Package<F> {
             if comp.exists(&stream_name) {
                 let stream = comp.open_stream(&stream_name)?;
                 for value_refs in table.read_rows(stream)?.into_iter() {
-                    let table_name = value_refs[0]
-                        .to_value(&string_pool)
-                        .as_str()
-                        .unwrap()
-                        .to_string();
-                    let column_name = value_refs[1]
-                        .to_value(&string_pool)
-                        .as_str()
-                        .unwrap()
-                        .to_string();
-                    let key = (table_name, column_name);
+                    let key = match (
+                        value_refs[0].to_value(&string_pool).as_str(),
+                        value_refs[1].to_value(&string_pool).as_str(),
+                    ) {
+                        (Some(table_name), Some(column_name)) => {
+                            (table_name.to_string(), column_name.to_string())
+                        }
+                        _ => invalid_data!(
+                            "Null key in {:?} table",
+                            VALIDATION_TABLE_NAME
+                        ),
+                    };
                     if validation_map.contains_key(&key) {
                         invalid_data!(
                             "Repeated key in {:?} table: {:?}",
@@ -416,7 +433,7 @@ impl<F: Read + Seek> Package<F> {
                 let key = (table_name.clone(), column_name);
                 if let Some(value_refs) = validation_map.get(&key) {
                     let is_nullable = value_refs[2].to_value(&string_pool);
-                    if is_nullable.as_str().unwrap() == "Y" {
+                    if is_nullable.as_str() == Some("Y") {
                         builder = builder.nullable();
                     }
                     let min_value = value_refs[3].to_value(&string_pool);
